@@ -1497,6 +1497,11 @@ impl Service {
             return;
         }
 
+        // Ignore sessions with ENRs the configured table filter excludes
+        if !(self.config.table_filter)(&enr) {
+            return;
+        }
+
         let node_id = enr.node_id();
 
         // We never update connection direction if a node already exists in the routing table as we
